@@ -5,6 +5,7 @@ mod engine;
 mod logical;
 mod obs;
 mod ops;
+mod probes;
 mod report;
 
 use report::*;
